@@ -140,7 +140,10 @@ def build(case):
             dmax = float(np.max(delta))
             mc = Counting(atoms, min_delta=0.25 * dmax, max_delta=dmax, temperature=case["T"], seed=case["seed"])
         else:
-            mc = Counting(atoms, delta=(delta.copy() if isinstance(delta, np.ndarray) else delta), temperature=case["T"], seed=case["seed"])
+            retemp = case["seed"] % 2 == 0
+            mc = Counting(atoms, delta=(delta.copy() if isinstance(delta, np.ndarray) else delta), temperature=(case["T"] * 7.3 if retemp else case["T"]), seed=case["seed"])
+            if retemp:
+                mc.temperature = case["T"]  # the public attribute re-tuned on the live driver; steps are then taken directly
         pk = case["power_kind"]
         if pk == "scalar":
             mc.masses_scaling_power = float(case["power"])
